@@ -1,9 +1,18 @@
 package checks
 
 import (
+	"bufio"
+	"encoding/json"
 	"fmt"
+	"os"
+	"os/exec"
 	"runtime"
+	"sort"
 	"strings"
+	"sync"
+
+	"github.com/cosmos/cosmos-sdk/telemetry"
+	"verifharness/sim"
 
 	"verifharness/enga"
 	"verifharness/mc"
@@ -95,9 +104,14 @@ func c07Twins(r *mc.Run) {
 	root, err := enga.NewWorld(c18Cfg())
 	must(err)
 	defer root.Close()
+	var lmu sync.Mutex
+	leaves := map[string][]string{}
 	var walk func(w *enga.World, path []enga.ABlock, digests []string)
 	walk = func(w *enga.World, path []enga.ABlock, digests []string) {
 		if len(path) == depth {
+			lmu.Lock()
+			leaves[fmt.Sprint(aPath(path))] = digests
+			lmu.Unlock()
 			twin, err := root.Fork()
 			must(err)
 			defer twin.Close()
@@ -154,4 +168,180 @@ func c07Twins(r *mc.Run) {
 		r.States.Add(1)
 		walk(child, []enga.ABlock{menu[i]}, []string{c07ResultDigest(res)})
 	})
+	c07LocalConfigs(r, depth, leaves)
+}
+
+// ---- replicas that differ in node-local configuration
+
+// c07LocalVariants are processes set up the way another operator might: nothing in them is part
+// of the replicated state machine, so every history must come out exactly as in this process.
+var c07LocalVariants = []string{"telemetry-enabled", "other-operator-settings"}
+
+func c07ApplyLocal(variant string) {
+	switch variant {
+	case "telemetry-enabled":
+		// app.toml [telemetry] enabled = true: the server start-up creates the process-wide metrics sink
+		if _, err := telemetry.New(telemetry.Config{Enabled: true, ServiceName: "goatd", PrometheusRetentionTime: 60}); err != nil {
+			panic(err)
+		}
+		if !telemetry.IsTelemetryEnabled() {
+			panic("telemetry not enabled")
+		}
+	case "other-operator-settings":
+		for k, v := range map[string]any{
+			"minimum-gas-prices": "0.25gas", "iavl-cache-size": 0, "iavl-disable-fastnode": true, "inter-block-cache": false,
+			"query-gas-limit": 1, "index-events": []string{"tx.height"}, "min-retain-blocks": 1, "trace": true,
+			"halt-height": 0, "mempool.max-txs": 7, "pruning": "everything",
+		} {
+			sim.LocalOpts[k] = v
+		}
+		os.Setenv("TZ", "Pacific/Kiritimati")
+		runtime.GOMAXPROCS(2)
+	default:
+		panic("unknown node-local variant " + variant)
+	}
+}
+
+type c07LocalLeaf struct {
+	Path    string   `json:"path"`
+	Digests []string `json:"digests"`
+}
+
+// C07LocalWorker runs the twin menu's histories (an instance per block) in a process configured
+// as the variant says and prints one JSON line per history.
+func C07LocalWorker(variant string, depth int) {
+	c07ApplyLocal(variant)
+	menu := c07TwinMenu()
+	root, err := enga.NewWorld(c18Cfg())
+	must(err)
+	defer root.Close()
+	out := bufio.NewWriter(os.Stdout)
+	var omu sync.Mutex
+	var walk func(w *enga.World, path []enga.ABlock, digests []string)
+	walk = func(w *enga.World, path []enga.ABlock, digests []string) {
+		if len(path) == depth {
+			bz, _ := json.Marshal(c07LocalLeaf{fmt.Sprint(aPath(path)), digests})
+			omu.Lock()
+			out.Write(bz)
+			out.WriteByte('\n')
+			omu.Unlock()
+			return
+		}
+		for _, b := range menu {
+			child, err := w.Fork()
+			must(err)
+			if res := child.Run(b); res.Err == nil {
+				walk(child, append(append([]enga.ABlock{}, path...), b), append(append([]string{}, digests...), c07ResultDigest(res)))
+			}
+			child.Close()
+		}
+	}
+	mc.Parallel(len(menu), runtime.NumCPU(), func(i int) {
+		child, err := root.Fork()
+		must(err)
+		defer child.Close()
+		if res := child.Run(menu[i]); res.Err == nil {
+			walk(child, []enga.ABlock{menu[i]}, []string{c07ResultDigest(res)})
+		}
+	})
+	omu.Lock()
+	out.WriteString("END\n")
+	out.Flush()
+	omu.Unlock()
+}
+
+func c07RunLocal(variant string, depth int) (map[string][]string, string) {
+	self, err := os.Executable()
+	must(err)
+	cmd := exec.Command(self, "c07local", variant, fmt.Sprint(depth))
+	var stderr strings.Builder
+	cmd.Stderr = &stderr
+	pipe, err := cmd.StdoutPipe()
+	must(err)
+	must(cmd.Start())
+	sc := bufio.NewScanner(pipe)
+	sc.Buffer(make([]byte, 1<<20), 1<<26)
+	got, ended := map[string][]string{}, false
+	for sc.Scan() {
+		if sc.Text() == "END" {
+			ended = true
+			continue
+		}
+		var l c07LocalLeaf
+		if json.Unmarshal(sc.Bytes(), &l) == nil && l.Path != "" {
+			got[l.Path] = l.Digests
+		}
+	}
+	_ = cmd.Wait()
+	if !ended {
+		return nil, "the replica process died: " + clip(stderr.String(), 800)
+	}
+	return got, ""
+}
+
+// c07LocalDiff lists the histories on which the replica's results differ from this process's.
+func c07LocalDiff(got, leaves map[string][]string) map[string]string {
+	d := map[string]string{}
+	for path, mine := range leaves {
+		theirs, ok := got[path]
+		if !ok {
+			d[path] = "the replica did not complete this history"
+			continue
+		}
+		for i := range mine {
+			if i >= len(theirs) || theirs[i] != mine[i] {
+				t := "nothing"
+				if i < len(theirs) {
+					t = theirs[i]
+				}
+				d[path] = fmt.Sprintf("block %d: %s | vs this process | %s", i+1, clip(t, 300), clip(mine[i], 300))
+				break
+			}
+		}
+	}
+	return d
+}
+
+func c07LocalConfigs(r *mc.Run, depth int, leaves map[string][]string) {
+	r.Bounds["node_local_configurations"] = c07LocalVariants
+	for _, variant := range c07LocalVariants {
+		got, died := c07RunLocal(variant, depth)
+		if died != "" {
+			// once more, alone on the machine, before believing it
+			if got, died = c07RunLocal(variant, depth); died != "" {
+				r.Violate(mc.Violation{Class: "replica-with-other-node-local-configuration-dies:" + variant, Msg: died, Detail: map[string]any{"mode": "node-local-configuration", "variant": variant}}, nil)
+				continue
+			}
+		}
+		n := 0
+		for _, d := range got {
+			n += len(d)
+		}
+		r.Transitions.Add(int64(n))
+		r.Validated.Add(int64(n))
+		diff := c07LocalDiff(got, leaves)
+		if len(diff) > 0 {
+			// a difference counts only if a second replica process shows the very same one
+			again, died := c07RunLocal(variant, depth)
+			if died != "" {
+				again = map[string][]string{}
+			}
+			diff2 := c07LocalDiff(again, leaves)
+			var paths []string
+			for p, d := range diff {
+				if diff2[p] == d {
+					paths = append(paths, p)
+				}
+			}
+			sort.Strings(paths)
+			if len(paths) > 0 {
+				r.Violate(mc.Violation{Class: "replica-diverges:node-local-configuration:" + variant,
+					Msg:    fmt.Sprintf("%d histories differ, first: %s: %s", len(paths), paths[0], diff[paths[0]]),
+					Detail: map[string]any{"history": paths[0], "mode": "node-local-configuration", "variant": variant}}, nil)
+				continue
+			}
+			r.Cap("node-local replica " + variant + ": a difference was not reproduced by a second replica process")
+		}
+		r.Outcome("node-local-configuration-agrees:" + variant)
+	}
 }
